@@ -609,6 +609,8 @@ class CycleMon(Monitor):
         for d in w.spec['devices']:
             if d['kind'] in ('handler', 'processor', 'sink'):
                 self.cur[d['name']] = d.get('cycle', 0)
+            if d.get('pre_offset'):
+                self.pending[d['name']] = d['pre_offset']
             if d['kind'] == 'source':
                 self.src_base[d['name']] = 0
                 self.src_items[d['name']] = 0
@@ -1355,6 +1357,11 @@ class NestHistory(Monitor):
 
 # ============================================================================ C18
 
+def copy_of(x):
+    import copy
+    return copy.deepcopy(x)
+
+
 @monitor('schedule')
 class ScheduleMon(Monitor):
     '''C18: the state of every action scheduler is what its timetable prescribes (reference timetable by repeated
@@ -1564,8 +1571,14 @@ class SensorMon(Monitor):
             r['times'].append(now)
             if cap is not None and len(r['times']) > cap:
                 r['times'].pop(0)
-        want = [('sense_cb', name, n, now, values) for n in range(d.get('callbacks', 1))]
-        want += [('cms', c, name, now, values) for c in r['cms']]
+        nb = d.get('callbacks', 1)
+        want = [('sense_cb', name, n, now, values) for n in range(nb)]
+        for c in r['cms']:
+            want.append(('cms', c, name, now, values))
+            late = next((x for x in w.spec['devices'] + list(w.spec.get('late', [])) if x['name'] == c), {}).get('late_callbacks', {})
+            for j in range(late.get(name, 0)):
+                want.append(('sense_cb', name, nb + j, now, values))
+                
         got = [t for t in tl_slice if t[0] in ('sense_cb', 'cms') and (t[1] == name if t[0] == 'sense_cb' else t[2] == name)]
         if got != want:
             raise Violation('callbacks', f'{name} at t={now}: on-sense callbacks / CMS hook {got}, expected once each in '
@@ -1615,7 +1628,14 @@ class SensorMon(Monitor):
                     elif [x for x in sl if (x[0] == 'sense_cb' and x[1] == name) or (x[0] == 'cms' and x[2] == name)]:
                         raise Violation('sensing_interval', f'{name}: part number {r["finished"]} finished by {d["processor"]} was '
                                                             f'measured; sensing interval {n} (first, then every {n + 1}-th)')
-                if not idx and [x for x in tl if (x[0] == 'sense_cb' and x[1] == name) or (x[0] == 'cms' and x[2] == name)]:
+                manual = [x for x in tl if x[0] == 'manual_sense' and x[1] == name]
+                if manual and not idx:
+                    # a measurement taken by hand (public sense()): recorded and delivered like any other, and it does not
+                    # disturb the count of finished parts that decides which part is measured next
+                    vals = [copy_of(getattr(p.target, p._attribute_name, None)) for p in s.probes]
+                    vals = list(s.last_sense) if len(s.last_sense) == len(vals) else vals
+                    self.measure(w, name, vals, now, tl)
+                elif not idx and [x for x in tl if (x[0] == 'sense_cb' and x[1] == name) or (x[0] == 'cms' and x[2] == name)]:
                     raise Violation('callbacks', f'{name}: callbacks invoked at t={now} although no part was finished')
         self.static(w)
 
